@@ -70,6 +70,15 @@ fn is_metric(matrices: &[Value]) -> bool {
     true
 }
 
+/// A relation document; with `omit_default_shift` the documented default (shift 0) is left implicit.
+pub fn relation_doc(kind: &str, jobs: Value, vehicle_id: &str, shift_index: u64, omit_default_shift: bool) -> Value {
+    if shift_index == 0 && omit_default_shift {
+        json!({"type": kind, "jobs": jobs, "vehicleId": vehicle_id})
+    } else {
+        json!({"type": kind, "jobs": jobs, "vehicleId": vehicle_id, "shiftIndex": shift_index})
+    }
+}
+
 /// Derives relations from a solution document the oracle found valid. `p` decides kinds and subsets.
 pub fn derive(problem: &Value, solution: &Value, p: &mut Prng, stats: &mut RelStats) -> Vec<Value> {
     let jobs: BTreeMap<&str, &Value> =
@@ -122,7 +131,9 @@ pub fn derive(problem: &Value, solution: &Value, p: &mut Prng, stats: &mut RelSt
                 t.len() == 1 || (t.len() == 2 && t[0].0 == "pickup" && t[1].0 == "delivery")
             })
         };
-        let rel = |kind: &str, listed: Vec<String>| json!({"type": kind, "jobs": listed, "vehicleId": vehicle_id, "shiftIndex": shift_index});
+        // (the shift index of the first shift may be left out: "if not specified, a first, zero indexed, shift assumed")
+        let omit = p.chance(0.5);
+        let rel = |kind: &str, listed: Vec<String>| relation_doc(kind, json!(listed), vehicle_id, shift_index, omit);
         let job_positions: Vec<usize> = (0..acts.len()).filter(|i| is_job(*i)).collect();
         if job_positions.is_empty() {
             continue;
